@@ -16,7 +16,7 @@ import os
 
 from hypothesis import strategies as st
 
-from ..outcome import fail, passed
+from ..outcome import CaseTimeout, fail, passed
 
 ID = 'C13'
 LEVEL = 'exploration'
@@ -824,6 +824,21 @@ def check(case):
         seen.add(base)
         found.append((prefix + bucket, detail))
 
+    if case.get('simulated_before'):
+        # history: the model has been simulated (and not reset) before it is serialised; run-time state must neither leak
+        # into the dictionary nor break the round trip.  Whether the run converges or raises is irrelevant here.
+        tags = sorted(set(tags) | {'history:simulated_before'})
+        try:
+            import warnings as _w
+            wn.options.time.duration = min(int(wn.options.time.duration), 2 * int(wn.options.time.hydraulic_timestep))
+            with _w.catch_warnings():
+                _w.simplefilter('ignore')
+                wntr.sim.WNTRSimulator(wn).run_sim(solver_options={'MAXITER': 200})
+            tags = sorted(set(tags) | {'history:simulation_completed'})
+        except CaseTimeout:
+            raise
+        except Exception:
+            pass
     try:
         d0 = wntr.network.to_dict(wn)
     except Exception as e:
@@ -942,6 +957,10 @@ def enumerate_cases(tier):
         yield {'inpfile': f}
     yield _base()
     yield dict(_base(), via_inp=True)
+    yield dict(_base(), simulated_before=True)
+    for lk in ([0.001, 0.75, None, None], [0.002, 0.6, 0, None], [0.002, 0.6, 3600, 7200]):
+        yield dict(_with(_set(('nodes', 0, 'leak'), lk)), simulated_before=True)
+        yield dict(_with(_set(('nodes', 3, 'leak'), lk)), simulated_before=True)
     J, T, R, P, HP, PP, V = ('nodes', 0), ('nodes', 3), ('nodes', 4), ('links', 0), ('links', 2), ('links', 3), \
         ('links', 4)
     singles = [
@@ -1246,6 +1265,8 @@ def strategy(draw, tier='quick'):
                 ctrls.append(['rule', c, then, els, prio])
     case['ctrls'] = ctrls
     case['via_inp'] = draw(st.sampled_from([False, False, False, True]))
+    if draw(st.integers(0, 7)) == 0:
+        case['simulated_before'] = True
     return case
 
 
